@@ -29,7 +29,7 @@ func init() {
 // FSpec is one generated filter.
 type FSpec struct {
 	ID   string `json:"id"`
-	Kind string `json:"kind"` // pass, stop, replace, attr, mw_r, mw_w, mw_rw, mw_async, panic
+	Kind string `json:"kind"` // pass, stop, replace, attr, mw_r, mw_w, mw_rw, mw_wv, mw_async, panic
 }
 
 type c06Route struct {
@@ -75,7 +75,7 @@ type C06Case struct {
 	Trace int `json:"trace,omitempty"`
 }
 
-var filterKinds = []string{"pass", "pass", "pass", "attr", "attr", "replace", "mw_r", "mw_w", "mw_rw", "mw_async", "stop", "panic"}
+var filterKinds = []string{"pass", "pass", "pass", "attr", "attr", "replace", "mw_r", "mw_w", "mw_rw", "mw_wv", "mw_async", "stop", "panic"}
 
 func genFilters(t *rapid.T, prefix string, max int) []FSpec {
 	n := rapid.IntRange(0, max).Draw(t, prefix+"n")
@@ -216,6 +216,13 @@ type wrapWriter struct {
 	flushed int32
 }
 
+// valWriter is a writer a middleware passes on by value; with its slice it is a type whose values
+// cannot be compared with == (a middleware is free to use such a type).
+type valWriter struct {
+	http.ResponseWriter
+	tags []string
+}
+
 func (w *wrapWriter) Flush() {
 	atomic.AddInt32(&w.flushed, 1)
 	if f, ok := w.ResponseWriter.(http.Flusher); ok {
@@ -324,6 +331,9 @@ func checkC06(c C06Case, partName string) (vs []*Violation) {
 				}
 				if f.Kind == "mw_async" {
 					w2 = &wrapWriter{ResponseWriter: w}
+				}
+				if f.Kind == "mw_wv" {
+					w2 = valWriter{ResponseWriter: w, tags: []string{f.ID}}
 				}
 				rid := r.Header.Get(c06ReqHeader)
 				ev := mwRec(rid)
